@@ -207,9 +207,12 @@ void verify(const Cell* p, size_t k, int t) {
 // stride = how the batch size varies from call to call, skipmode: 0 = take
 // the bulk prefix as one big range, k>0 = fast-forward to k items before the
 // end of the bulk prefix.
-void do_consume(int t, int64_t a, int64_t stride, int64_t skipmode, size_t prefix) {
-  Topic& q = S->topic;
+// CST: through the const interface (ConstConsumer of a const topic, const ranges)
+template <bool CST>
+void do_consume_impl(int t, int64_t a, int64_t stride, int64_t skipmode, size_t prefix) {
+  typename std::conditional<CST, const Topic&, Topic&>::type q = S->topic;
   auto cons = q.subscribe();
+  if (CST) probe("const_consumer");
   size_t got = 0;
   if (skipmode > 0 && prefix > (size_t)skipmode) {
     // Legal history prefix without paying for it: put this consumer object
@@ -226,12 +229,12 @@ void do_consume(int t, int64_t a, int64_t stride, int64_t skipmode, size_t prefi
     size_t n = 1 + (size_t)((a - 1 + stride * call) % 5);
     if (call == 0 && skipmode <= 0 && prefix > 8) n = prefix - 3;  // swallow the bulk prefix in one range
     if (n == 1 && (call & 1) == 0) {
-      Cell* p = cons.consume();
+      auto* p = cons.consume();
       if (!p) break;
       verify(p, got, t);
       got++;
     } else {
-      auto r = cons.consume(n);
+      const auto r = cons.consume(n);
       size_t m = r.size();
       if (m > n) fail("api", "consume_n", "consume(%zu) returned a range of %zu", n, m);
       if (m > 0 && got / BLOCK != (got + m - 1) / BLOCK) probe("consume_range_crossed_block_boundary");
@@ -249,6 +252,11 @@ void do_consume(int t, int64_t a, int64_t stride, int64_t skipmode, size_t prefi
     if (cons.consume(3).size() != 0) fail("invented", "consume-after-end", "consume(3) delivered items after the end marker");
   }
   for (size_t i = 0; i < S->progress.size(); i++) if (S->progress[i] == &got) { S->progress.erase(S->progress.begin() + (long)i); break; }
+}
+
+void do_consume(int t, int64_t a, int64_t stride, int64_t skipmode, size_t prefix) {
+  if (((a * 7 + stride * 3 + t) % 3) == 0) do_consume_impl<true>(t, a, stride, skipmode, prefix);
+  else do_consume_impl<false>(t, a, stride, skipmode, prefix);
 }
 
 inline int op_cycle(const Op& o) { return (int)((o.b >> 8) & 0xff); }
